@@ -19,17 +19,8 @@ LEVEL_NOTE = ("Layered: the refractive indices n_p, n_s, n_i (beam.refractive_in
               "n ω / c), also on SPDC objects after mutation histories (every idler-deriving route; K ties the object's idler to the model too). "
               "Counter-propagation and backward signal angles (|θs| > π/2) are tied by K only (outside the statement's "
               "quantifier).")
-LEVEL_NOTE += ' COMPOSED MODEL (notes/compose.md): the cmp_* K ops are NOT layered — their K line carries only the primitive setup (crystal id, angles, length, temperature, PM type, wavelengths, internal signal/idler angles, waists, waist positions, bandwidth, power, threshold, deff, signed poling period + window) and Spdc.Model.Compose recomputes the printed quantity through every layer model (Crystals → Index → Beam/Units → DeltaK → Poling → PM → Quad → Norm/Jsa → Singles); the real side is an SPDC rebuilt from exactly these primitives by Beam::new / PumpBeam::from / PeriodicPoling::new / SPDC::new (+ assign_optimum_idler for idler "auto"). Outside the composition (their RESULTS are primitives): Snell inverse, optimum_theta, optimum_poling_period.'
 OPS = {"opt_idler", "delta_k", "k_eff", "dk_wavevector"}
 TOL = {"opt_idler": ("ulp", 4), "delta_k": ("rel", 1e-12, 1e-8), "k_eff": ("ulp", 2), "dk_wavevector": ("ulp", 4)}
-# COMPOSED end-to-end model (Model/Compose.lean, notes/compose.md): the K line carries the primitive setup only; the
-# model recomputes beams, principal and direction-dependent indices, external angles, walk-off, k_eff, apodisation
-# weights, wave vectors and Δk through all its layers.  Observed: bit-for-bit on every op (0 ulp over 3 × 3000 setups).
-OPS |= {"cmp_beams", "cmp_swap_beams", "cmp_indices", "cmp_theta_ext", "cmp_waist_pos", "cmp_walkoff", "cmp_keff",
-        "cmp_apod", "cmp_wavevectors", "cmp_deltak"}
-TOL.update({"cmp_beams": ("ulp", 4), "cmp_swap_beams": ("ulp", 4), "cmp_indices": ("ulp", 4), "cmp_theta_ext": ("ulp", 16),
-            "cmp_waist_pos": ("ulp", 16), "cmp_walkoff": ("rel", 1e-12, 1e-12), "cmp_keff": ("ulp", 2), "cmp_apod": ("ulp", 8),
-            "cmp_wavevectors": ("ulp", 8), "cmp_deltak": ("rel", 1e-12, 1e-8)})
 DEFAULT_TOL = ("exact",)
 RULE = ("family dk: 11 crystals × 5 PM types × crystal θ ∈ [0,π/2] (plus {0, π/2, any}) × φ × T 0–100 °C × in-window pump/signal "
         "wavelengths with idler in-window (¼ degenerate) × |θs| ≤ 0.3 (incl. 0 and log-small; 1/5 negative, own signatures) × φs × "
@@ -40,12 +31,32 @@ RULE = ("family dk: 11 crystals × 5 PM types × crystal θ ∈ [0,π/2] (plus {
         "that derives the idler (assign_optimum_idler ×2, with_optimum_idler, optimum_idler, try_as_optimum, as_config→idler:\"auto\"→"
         "try_as_spdc) and by ALL clauses on the resulting object (signatures route/<route>/<clause>), plus the λs ≤ λp error clause "
         "through the object's methods")
-RULE += ' | family compose/c03: random valid setups (11 crystals × 5 PM types, poled (8 window kinds, signed period) / unpoled, 2/3 phase-matched by the crate\'s optimum calls whose results become primitives, 2/3 non-collinear up to 3° external incl. negative internal angles and counter-propagation, waists 20 µm–3 mm (¼ elliptical), idler explicit (optimum read back or arbitrary) or "auto" (1/3: the model computes the optimum idler itself)): beams (angles, direction, frequency, wavelength, polarization, waist) of the setup and of its exchange, principal indices at λ(ωs), λ(ωi), λ(ωs+ωi), n_s(ωs), n_i(ωi), n_p(ωs+ωi), n_p(ωp), external angles, optimal waist positions, pump walk-off, k_eff, apodisation weights at 5 z, the three wave vectors and Δk at the centre and at one detuned pair'
 RESIDUAL = "none beyond floating-point rounding (the index values are C01/C02's)"
 ASSUMPTIONS = ["refractive indices are inputs of the model (layer C02)", "UCUM base values: M = RAD = 1.0, so x*M/RAD is the identity"]
-CHECKER_MODULES = ["Spdc.Real.DeltaK", "Spdc.Real.ComposeLemmas"]
+CHECKER_MODULES = ["Spdc.Real.DeltaK"]
 
 
 def families(tier, seed):
     n = 30000 if tier == "quick" else 300000
-    return [("dk", seed, n, []), ("compose", seed, 2500 if tier == "quick" else 30000, ["c03"])]
+    return [("dk", seed, n, [])]
+
+
+# ------------------------------------------------------------------------------------------------------------------------------
+# COMPOSED end-to-end model (branch compose; Model/Compose.lean, notes/compose.md) — purely additive block.
+# The K line of a cmp_* op carries the primitive setup only; the model recomputes beams, principal and direction-dependent
+# indices, external angles, walk-off, k_eff, apodisation weights, wave vectors and Δk through all its layers.
+# Observed: bit-for-bit on every op (0 ulp over 3 seeds × 3000 setups).
+OPS = set(OPS) | {"cmp_beams", "cmp_swap_beams", "cmp_indices", "cmp_theta_ext", "cmp_waist_pos", "cmp_walkoff", "cmp_keff",
+                  "cmp_apod", "cmp_wavevectors", "cmp_deltak"}
+TOL = dict(TOL)
+TOL.update({"cmp_beams": ("ulp", 4), "cmp_swap_beams": ("ulp", 4), "cmp_indices": ("ulp", 4), "cmp_theta_ext": ("ulp", 16),
+            "cmp_waist_pos": ("ulp", 16), "cmp_walkoff": ("rel", 1e-12, 1e-12), "cmp_keff": ("ulp", 2), "cmp_apod": ("ulp", 8),
+            "cmp_wavevectors": ("ulp", 8), "cmp_deltak": ("rel", 1e-12, 1e-8)})
+RULE += ' | family compose/c03: random valid setups (11 crystals × 5 PM types, poled (8 window kinds, signed period) / unpoled, 2/3 phase-matched by the crate\'s optimum calls whose results become primitives, 2/3 non-collinear up to 3° external incl. negative internal angles and counter-propagation, waists 20 µm–3 mm (¼ elliptical), idler explicit (optimum read back or arbitrary) or "auto" (1/3: the model computes the optimum idler itself)): beams (angles, direction, frequency, wavelength, polarization, waist) of the setup and of its exchange, principal indices at λ(ωs), λ(ωi), λ(ωs+ωi), n_s(ωs), n_i(ωi), n_p(ωs+ωi), n_p(ωp), external angles, optimal waist positions, pump walk-off, k_eff, apodisation weights at 5 z, the three wave vectors and Δk at the centre and at one detuned pair'
+LEVEL_NOTE += ' COMPOSED MODEL (notes/compose.md): the cmp_* K ops are NOT layered — their K line carries only the primitive setup (crystal id, angles, length, temperature, PM type, wavelengths, internal signal/idler angles, waists, waist positions, bandwidth, power, threshold, deff, signed poling period + window) and Spdc.Model.Compose recomputes the printed quantity through every layer model (Crystals → Index → Beam/Units → DeltaK → Poling → PM → Quad → Norm/Jsa → Singles); the real side is an SPDC rebuilt from exactly these primitives by Beam::new / PumpBeam::from / PeriodicPoling::new / SPDC::new (+ assign_optimum_idler for idler "auto"). Outside the composition (their RESULTS are primitives): Snell inverse, optimum_theta, optimum_poling_period.'
+CHECKER_MODULES = list(CHECKER_MODULES) + ["Spdc.Real.ComposeLemmas"]
+_families_layered = families
+
+
+def families(tier, seed):
+    return _families_layered(tier, seed) + [("compose", seed, 2500 if tier == "quick" else 30000, ["c03"])]
